@@ -284,11 +284,20 @@ def canon_safe(x) -> str:
     return json.dumps(x, sort_keys=True, default=str)
 
 
+_RUNLOCKS: dict = {}
+
+
 class Check:
     """Bookkeeping for one run of one property's check."""
 
     def __init__(self, pid: str, tier: str, level: str = "proof"):
         self.pid = pid
+        # one run per property at a time: a run regenerates lean/PyxelModel/Generated/<pid>.lean from ITS tree and its
+        # driver loads the compiled result, so two runs of one property (different trees, tiers or seeds) take turns
+        (LEAN / ".lake").mkdir(exist_ok=True)
+        if pid not in _RUNLOCKS:
+            _RUNLOCKS[pid] = open(LEAN / ".lake" / f"run-{pid}.lock", "w")
+            fcntl.flock(_RUNLOCKS[pid], fcntl.LOCK_EX)
         self.tier = tier if tier in ("quick", "thorough") else "quick"
         self.seed = int(os.environ.get("VERIF_SEED", "0") or 0)
         self.rng = random.Random(f"{pid}-{self.seed}")
